@@ -21,7 +21,7 @@ from .. import sched_shapes as SS
 PID = "C01"
 INVS = ["TypeOK", "DoneImpliesFinal", "RunOnlyStaged", "RestartBound", "ExactlyOneFinal"]
 PROPS = ["LaunchSafe", "FinalAbsorbing", "DoneGrows", "NoRunAfterFinal"]
-ACTIONS = ["Pass", "TaskExit", "KilledExit", "SetFinal", "NotifyProducers", "PostMortemCheck", "FinishedCheck", "StageEnd", "Cleanup"]
+ACTIONS = ["Pass", "TaskExit", "KilledExit", "SetFinal", "NotifyProducers", "PostMortemCheck", "FinishedCheckO", "StageEnd", "Cleanup"]
 KILL_EVERY = 5      # one real schedule in KILL_EVERY has the environment call killController() at a random turn
 FIXOBS = True      # the specification models _input_dependencies_satisfied as repaired (see known_findings.json)
 
